@@ -281,3 +281,40 @@ def limb_scalars(bits=256):
             if k and k not in out:
                 out.append(k)
     return out
+
+
+@functools.lru_cache(maxsize=None)
+def secp_unreduced_sec1():
+    """SEC1 buffers whose coordinate FIELDS hold x + p or y + p for a genuine secp256k1 point (x, y) and still fit in 32 bytes:
+    points with tiny x (1..400) and - by a cube root, p = 7 mod 9 - points with tiny y (1..200).  None of them is a valid
+    encoding (a coordinate is >= p); an implementation that reduces before it compares accepts them.  Yields
+    (description, buffer, the reduced point) for the uncompressed and compressed forms."""
+    p = 2 ** 256 - 2 ** 32 - 977
+    i32 = lambda v: v.to_bytes(32, "big")
+    pts = []
+    for x in range(1, 400):
+        c = (x * x * x + 7) % p
+        y = pow(c, (p + 1) // 4, p)
+        if y * y % p == c:
+            pts.append((x, y))
+            pts.append((x, p - y))
+        if len(pts) >= 8:
+            break
+    tiny_y = []
+    for y in range(1, 200):
+        c = (y * y - 7) % p
+        if pow(c, (p - 1) // 3, p) == 1:
+            x = pow(c, (p + 2) // 9, p)
+            if pow(x, 3, p) == c:
+                tiny_y.append((x, y))
+        if len(tiny_y) >= 3:
+            break
+    out = []
+    for x, y in pts:
+        out.append((f"04 | x+p | y (x={x})", b"\x04" + i32(x + p) + i32(y), (x, y)))
+        out.append((f"{2 + (y & 1):02x} | x+p (x={x})", bytes([2 + (y & 1)]) + i32(x + p), (x, y)))
+    for x, y in tiny_y:
+        out.append((f"04 | x | y+p (y={y})", b"\x04" + i32(x) + i32(y + p), (x, y)))
+    x, y = pts[0]
+    xt, yt = tiny_y[0]
+    return out
